@@ -6,7 +6,8 @@ import RModel.Base.Lit
   * `lines`                — split after every `\n`; this one function is both
                              `apply.rs::split_preserving_newlines` and diffy's `utils::LineIter`
                              (both cut after each `\n` and keep a last unterminated segment).
-  * `rewriteHeaders`       — `apply.rs::replace_patch_headers` (with the `in_header` flag);
+  * `rewriteHeaders`       — `apply.rs::replace_patch_headers` (with the `in_header` flag and the `quote` closure);
+    `rewriteHeadersUnquoted` — the same before the quoting fix;
     `rewriteHeadersOld`    — the algorithm before commit "rewrite only the header lines of reverse patches".
   * `Patch`, `fmt`, `parse`— diffy 0.4.2 `patch/mod.rs`, `patch/format.rs` (default `PatchFormatter`: no colour,
                              missing-newline message on, `suppress_blank_empty` on) and `patch/parse.rs`.
@@ -46,8 +47,27 @@ def rewriteGo (a b : Bytes) : Bool → List Bytes → Bytes
     else if sw l b!"+++ " then b!"+++ " ++ b ++ eol l ++ rewriteGo a b inHeader ls
     else l ++ rewriteGo a b inHeader ls
 
+/-- `ESCAPED_CHARS` of diffy: `\n \t \0 \r " \` -/
+def isEscaped (c : UInt8) : Bool :=
+  c = 10 || c = 9 || c = 0 || c = 13 || c = 34 || c = 92
+
+/-- one character of the quoted form written by the `quote` closure of `replace_patch_headers` -/
+def escChar (c : UInt8) : Bytes :=
+  if c = 10 then [92, 110] else if c = 9 then [92, 116] else if c = 0 then [92, 48]
+  else if c = 13 then [92, 114] else if c = 34 then [92, 34] else if c = 92 then [92, 92] else [c]
+
+/-- the `quote` closure (commit "quote file names in reverse patch headers when diffy requires it"): a name
+    containing one of diffy's `ESCAPED_CHARS` is written `"…"` with `\n \t \0 \r \" \\` escapes — the form diffy's
+    PARSER accepts (diffy's own formatter writes a backslash followed by the raw character, which its parser rejects) -/
+def quoteName (n : Bytes) : Bytes :=
+  if n.any isEscaped then [34] ++ n.flatMap escChar ++ [34] else n
+
 /-- `replace_patch_headers(patch, from, to)`; `a`, `b` are the two (already relative) path strings -/
-def rewriteHeaders (text a b : Bytes) : Bytes := rewriteGo a b true (splitPreservingNewlines text)
+def rewriteHeaders (text a b : Bytes) : Bytes :=
+  rewriteGo (quoteName a) (quoteName b) true (splitPreservingNewlines text)
+
+/-- before the quoting fix: the paths go into the header as they are -/
+def rewriteHeadersUnquoted (text a b : Bytes) : Bytes := rewriteGo a b true (splitPreservingNewlines text)
 
 def rewriteOldGo (a b : Bytes) : List Bytes → Bytes
   | [] => []
@@ -89,10 +109,6 @@ structure Patch where
   deriving DecidableEq, Repr
 
 def noNewlineMsg : Bytes := b!"\\ No newline at end of file"
-
-/-- `ESCAPED_CHARS`: `\n \t \0 \r " \` -/
-def isEscaped (c : UInt8) : Bool :=
-  c = 10 || c = 9 || c = 0 || c = 13 || c = 34 || c = 92
 
 -- decimal numbers ---------------------------------------------------------------------------------------
 
@@ -201,20 +217,24 @@ def skipPreamble : List Bytes → List Bytes
 def unescapedFilename (f : Bytes) : Except ParseErr Bytes :=
   if f.any isEscaped then .error .invalidUnquoted else .ok f
 
+/-- the character an escape `\x` stands for -/
+def unescape (c : UInt8) : Option UInt8 :=
+  if c = 110 then some 10 else if c = 116 then some 9 else if c = 48 then some 0
+  else if c = 114 then some 13 else if c = 34 then some 34 else if c = 92 then some 92 else none
+
 def escapedFilename : Bytes → Except ParseErr Bytes
   | [] => .ok []
-  | 92 :: [] => .error .expectedEscaped
-  | 92 :: c :: rest =>
-    let ch : Option UInt8 :=
-      if c = 110 then some 10 else if c = 116 then some 9 else if c = 48 then some 0
-      else if c = 114 then some 13 else if c = 34 then some 34 else if c = 92 then some 92 else none
-    match ch with
-    | none => .error .invalidEscaped
-    | some x => match escapedFilename rest with
-      | .ok r => .ok (x :: r)
-      | .error e => .error e
   | c :: rest =>
-    if isEscaped c then .error .invalidUnescaped
+    if c = 92 then
+      match rest with
+      | [] => .error .expectedEscaped
+      | x :: rest' =>
+        match unescape x with
+        | none => .error .invalidEscaped
+        | some y => match escapedFilename rest' with
+          | .ok r => .ok (y :: r)
+          | .error e => .error e
+    else if isEscaped c then .error .invalidUnescaped
     else match escapedFilename rest with
       | .ok r => .ok (c :: r)
       | .error e => .error e
